@@ -31,7 +31,7 @@ CHECKS["C13"] = dict(
     engine="crashmc", category="fault_enumeration", design_ref="DESIGN.md 3.13",
     technique="complete single-fault enumeration over clean-shutdown data directories: every file x (every bit flip, every truncation length, deletion), each recovered with strict HnswBackend::recover",
     text="Clean-shutdown directories are produced by a fixed list of histories (several sessions, two snapshots, rotated and compacted segments). Files are a few hundred bytes, so the single-fault space is enumerated completely: every bit of every byte, every truncation length, and deletion, for MANIFEST, every snapshot and every WAL segment. Strict recovery must refuse or reproduce the pre-damage dump exactly; outcomes on the newest segment that equal a plain truncation of that segment are the excluded torn-tail case. Faults on which start-up aborts or panics are counted as refusals.",
-    note="Trusted: the directories are representative (fixed list, 2 quick / 5 thorough), single faults only. Findings are signed by (file role, fault kind, structural field, symptom); known findings in known_findings.txt (torn-tail tolerance on non-newest segments, MANIFEST without checksum).",
+    note="Trusted: the directories are representative (a fixed list of seven shapes incl. a wide-vector one, the same in both tiers), single faults only. Findings are signed by (file role, fault kind, structural field, symptom); known findings in known_findings.txt (torn-tail tolerance on non-newest segments, MANIFEST without checksum).",
 )
 
 CHECKS["C04"] = dict(
